@@ -1695,6 +1695,25 @@ impl<'a> Gen<'a> {
 			}
 		}
 	}
+	/// One long silence inside the BODY of each item (never inside the 11 header bytes): the frame's body, the
+	/// items of a header list or the bytes of an attachment arrive in two fragments 2.6 s apart - longer than the
+	/// 2 s the codec waits for a frame header, far below the 60 s it allows a body. (A silence of that length
+	/// inside a frame header is outside the statement's premise: the header timeout then fires mid-header.)
+	fn stall_in_body(&mut self, p: &mut Prng, st: &Arc<Stream>, listen: bool, max_jobs: usize) {
+		let mut start = 0usize;
+		let mut made = 0;
+		for e in &st.item_ends {
+			let lo = start + HDR_LEN + 1; // at least one body byte already delivered
+			if *e > lo + 1 && made < max_jobs {
+				let c = lo + p.usize_below(*e - lo - 1);
+				if c > start + HDR_LEN && c < *e {
+					self.push(st, "stall_in_body", vec![c], vec![2600], 0, listen, None);
+					made += 1;
+				}
+			}
+			start = *e;
+		}
+	}
 	fn chunked(&mut self, st: &Arc<Stream>, class: &'static str, chunk: usize, gap_us: u64, listen: bool) {
 		let cuts: Vec<usize> = (1..).map(|i| i * chunk).take_while(|c| *c < st.bytes.len()).collect();
 		self.push(st, class, cuts, vec![], gap_us, listen, None);
@@ -1993,6 +2012,32 @@ fn gen_jobs(fx: &Arc<Fx>, seed: u64, scale: u32) -> (Vec<Job>, Vec<Group>) {
 			g.random_splits(&mut p, st, "random", 2, true);
 			if st.bytes.len() <= 1500 {
 				g.dribble(st, true);
+			}
+		}
+	}
+
+	// ---- a silence longer than the header timeout inside a body (known and unknown types, header lists, attachments)
+	{
+		let sets: Vec<(&str, Vec<Item>)> = vec![
+			("stall-ctl", vec![g.plain("Ping"), g.plain("TransactionKernel"), g.plain("GetHeaders1"), g.plain("PeerAddrs3"), g.plain("Pong")]),
+			("stall-unk", vec![g.plain("Ping"), Item::Unknown(255, 100), Item::Unknown(77, 1700), g.plain("Pong")]),
+			("stall-hdr", vec![Item::Headers(vec![1, 2, 3]), g.plain("Ping"), Item::Headers((0..40.min(pool_n)).collect()), g.plain("Pong")]),
+			("stall-att", vec![Item::Archive(100, 5), g.plain("Ping"), Item::Archive(60_000, 6), g.plain("Pong")]),
+			("stall-tx", vec![g.plain("Transaction"), g.plain("CompactBlockTx"), g.plain("Ping")]),
+		];
+		let take = match scale {
+			0 => 1,
+			1 => 5,
+			_ => 5,
+		};
+		for (k, (name, items)) in sets.into_iter().enumerate().take(take) {
+			let vs: Vec<usize> = if scale >= 2 { vec![0, 1, 2, 3] } else { vec![[3usize, 0, 2, 1, 3][k]] };
+			for vi in vs {
+				let st = mk_stream(fx, name, vi, items.clone());
+				g.stall_in_body(&mut p, &st, false, if scale == 0 { 2 } else { 8 });
+				if scale >= 1 && st.items.iter().any(|i| !matches!(i, Item::Unknown(_, _))) {
+					g.stall_in_body(&mut p, &st, true, 8);
+				}
 			}
 		}
 	}
@@ -3409,10 +3454,13 @@ fn main() {
 
 	// phase: faithfulness
 	let (jobs, groups) = gen_jobs(&fx, run.seed, scale);
+	// a cap, not a duration: an idle machine is through the quick job list in about a minute; under load (or with the
+	// host's CPU shared) the same list has taken four times as long, and a truncated list falls short of the
+	// minimum observations below (exit 2)
 	let budget = match scale {
 		0 => 120,
-		1 => 70,
-		_ => 560,
+		1 => 240,
+		_ => 900,
 	};
 	let deadline = Instant::now() + Duration::from_secs(budget);
 	run.count("stream_jobs_generated", jobs.len() as u64);
@@ -3466,6 +3514,7 @@ fn main() {
 	run.require("attachment chunks received", run.counter("attachment_chunks_received"), q(100, 1_000, 5_000));
 	run.require("unknown-type frames skipped", run.counter("received.unknown"), q(200, 4_000, 10_000));
 	run.require("streams through conn::listen", run.counter("streams_ok.path_listen"), q(0, 400, 1_500));
+	run.require("streams with a 2.6 s silence inside a body (longer than the header timeout) read back identically", run.counter("streams_ok.stall_in_body"), q(1, 25, 100));
 	run.require("streams written by a real connection (ConnHandle::send -> writer thread) and read by another", run.counter("streams_ok.real_writer"), q(2, 25, 120));
 	run.require("frames refused before the body", run.counter("frames_refused_before_body"), q(30, 250, 250));
 	run.require("within-limit frames accepted", run.counter("frames_within_limit_accepted"), q(15, 100, 100));
